@@ -257,6 +257,26 @@ def r3_crowding(ctx, repo):
     else:
         ctx.inconclusive("R3", C, where(mod, obj_loop), "objective range %s not recognised" % text(obj_loop.iter), key="objective-loop")
 
+    # every objective must be processed: the objective loop is never left early
+    early = []
+    for st in stmts_of(obj_loop):
+        if st is obj_loop:
+            continue
+        if isinstance(st, ast.Return):
+            early.append(st)
+        if isinstance(st, ast.Break):
+            # a break belongs to the innermost enclosing loop
+            owner = None
+            for lp_ in [x for x in stmts_of(obj_loop) if isinstance(x, (ast.For, ast.While))]:
+                if st in stmts_of(lp_) and (owner is None or lp_ in stmts_of(owner)):
+                    owner = lp_
+            if owner is None:
+                early.append(st)
+    if early:
+        ctx.violated("R3", C, where(mod, early[0]), "the objective loop is left early (%s): the remaining objectives contribute nothing and their extreme members do not get infinite distance" % type(early[0]).__name__.lower(), key="all-objectives")
+    else:
+        ctx.holds("R3", C, where(mod, obj_loop), "no break/return inside the objective loop: every objective is processed", key="all-objectives")
+    # a zero-range guard may only skip the division, not the boundary assignment
     # sort by that objective
     sorts = [s for s in obj_loop.body if isinstance(s, ast.Expr) and is_method_call(s.value, "sort") and access_path(s.value.func.value) == front]
     okk = False
